@@ -20,6 +20,20 @@ Definition res_eqb (a b : res) : bool :=
 Fixpoint list_eqb {A} (eqb : A -> A -> bool) (a b : list A) : bool :=
   match a, b with [], [] => true | x :: a', y :: b' => eqb x y && list_eqb eqb a' b' | _, _ => false end.
 Definition case := (opn * list val * res * list val)%type.
+(* equality of exact VALUES, whatever the representation *)
+Definition val_same_value (a b : val) : bool :=
+  match denote a, denote b with
+  | Some (n, d), Some (n', d') => Z.eqb (n * d') (n' * d)
+  | _, _ => false
+  end.
+Definition res_same_value (a b : res) : bool :=
+  match a, b with
+  | RVal x, RVal y => val_same_value x y
+  | RVals q r, RVals q' r' => val_same_value q q' && val_same_value r r'
+  | RBool x, RBool y => Bool.eqb x y
+  | RCond _, RCond _ => true
+  | _, _ => false
+  end.
 Definition out_matches (m : out) (r : res) (after : list val) : bool :=
   res_eqb (o_res m) r && list_eqb val_eqb (o_args m) after.
 (* 0: M = observed.  1: M <> observed; inside the guard the observed outcome still equals S (or the
@@ -35,7 +49,14 @@ Definition check_case (c : case) : N :=
   let s_obs := match s_out o args with Some so => out_matches so r after | None => true end in
   let s_m := match s_out o args with Some so => out_matches so (o_res m) (o_args m) | None => true end in
   if agree then (if dom && negb s_m then 3%N else 0%N)
-  else if dom && negb s_obs then 2%N else 1%N.
+  (* a failing input: the implementation leaves S inside the guard, or on an input where the model
+     (the unchanged code) met S *)
+  else if (dom || s_m) && negb s_obs then 2%N
+  else match s_out o args with
+       | Some so => (* ... or the values were exact (whatever the representation) and no longer are *)
+           if res_same_value (o_res so) (o_res m) && negb (res_same_value (o_res so) r) then 2%N else 1%N
+       | None => 1%N
+       end.
 Fixpoint check_all_from (i : N) (cs : list case) : list (N * N) :=
   match cs with
   | [] => []
